@@ -112,6 +112,7 @@ type scenario struct {
 	race    *inst
 	raceLin int
 
+	alias *inst
 	twoNS bool // the deepest delegation has a glued and a glue-less name server
 	soft string // known-finding verdict of the last audit (reported only if nothing else failed)
 }
@@ -200,8 +201,13 @@ var chainNames = []string{"test.", "vic.test.", "deep.vic.test."}
 func marker(idx, gen, n int) string { return fmt.Sprintf("10.%d.%d.%d", idx, gen, n) }
 
 func (s *scenario) addInst(idx, gen int, parent *inst, nsTTL, dsTTL uint32, signed bool, hostMode string) *inst {
-	name := "host.test."
-	if idx != 9 {
+	var name string
+	switch idx {
+	case 9:
+		name = "host.test."
+	case 8:
+		name = "al." // the alias zone: long lease, never withdrawn, CNAMEs into every chain zone
+	default:
 		name = chainNames[idx-1]
 	}
 	i := &inst{name: name, idx: idx, gen: gen, parent: parent, kids: map[string]*inst{}, nsTTL: nsTTL, dsTTL: dsTTL, signed: signed, mode: "honest"}
@@ -248,6 +254,16 @@ func (s *scenario) addInst(idx, gen int, parent *inst, nsTTL, dsTTL uint32, sign
 		fmt.Sprintf("long.%s 86400 IN A %s", name, marker(idx, gen, 2)),
 		fmt.Sprintf("short.%s 1 IN A %s", name, marker(idx, gen, 3)),
 	)
+	if idx <= 3 {
+		// names that exist in every other incarnation only: what the OLD servers deny the
+		// NEW ones answer (and vice versa), so a stale denial / answer shows in the rcode
+		if gen%2 == 1 {
+			i.z.Add(fmt.Sprintf("flip.%s %d IN A %s", name, s.attl, marker(idx, gen, 4)),
+				fmt.Sprintf("bflip.%s %d IN A %s", name, s.attl, marker(idx, gen, 5)))
+		} else {
+			i.z.Add(fmt.Sprintf("flop.%s %d IN A %s", name, s.attl, marker(idx, gen, 6)))
+		}
+	}
 	// what the child says about itself: its own apex NS RRset carries a huge TTL
 	for _, rr := range i.z.Records[name][dns.TypeNS] {
 		rr.Header().Ttl = hugeTTL
@@ -361,6 +377,16 @@ func (s *scenario) tamper(i *inst, q dns.Question, honest *dns.Msg) *dns.Msg {
 		}
 		return m
 	}
+	if first == "bflip" && honest != nil && honest.Rcode == dns.RcodeNameError && !i.signed {
+		// a BARE denial: rcode only, no SOA, nothing in any section
+		honest.Ns = nil
+		var extra []dns.RR
+		if o := honest.IsEdns0(); o != nil {
+			extra = append(extra, o)
+		}
+		honest.Extra = extra
+		return honest
+	}
 	i.mu.Lock()
 	mode := i.mode
 	i.mu.Unlock()
@@ -444,6 +470,14 @@ func execNew(f []string) vlib.Res {
 		i := s.addInst(k, 0, parent, ns[k-1], ds[k-1], signed, "new")
 		s.names = append(s.names, i.name)
 		parent = i
+	}
+	// the alias zone: a sibling TLD with a long lease and long-lived CNAMEs pointing at
+	// existing, flipping and barely-denied names of every chain zone
+	s.alias = s.addInst(8, 0, nil, 3600, 3600, false, "new")
+	for k, n := range s.names {
+		for _, p := range [][2]string{{"w", "www"}, {"f", "flip"}, {"b", "bflip"}, {"p", "flop"}} {
+			s.alias.z.Add(fmt.Sprintf("%s%d.al. 3600 IN CNAME %s.%s", p[0], k+1, p[1], n))
+		}
 	}
 	s.p = l3.NewPipe(s.w, l3.PipeOpts{DNSSEC: s.dnssec, Tweak: func(cfg *config.Config) {
 		cfg.Prefetch = uint32(pf)
@@ -756,6 +790,47 @@ func execQuery(s *scenario, f []string) vlib.Res {
 		}
 		impl = fmt.Sprintf("rcode=%s an=%d old=%d new=%d", dns.RcodeToString[resp.Rcode], len(resp.Answer), olds, news)
 	}
+	// A denial (or an empty answer) carries no record that names its origin: judge the
+	// rcode / presence of the answer against what the parent side now says, once every
+	// lease of a withdrawn or re-pointed delegation the name (or its alias chain)
+	// depends on is over.
+	if resp != nil && resp.Rcode != dns.RcodeServerFailure && verdict == "ok" {
+		tr := s.w.Truth(f[2], qt)
+		names := []string{lcn(f[2])}
+		for _, rrs := range [][]dns.RR{resp.Answer, tr.Answer} {
+			for _, rr := range rrs {
+				if c, ok := rr.(*dns.CNAME); ok {
+					names = append(names, lcn(c.Target))
+				}
+			}
+		}
+		past := false
+		for _, i := range s.insts {
+			if !i.withdrawn || !i.hasBound[0] || vq < i.bound[0]+slack || vq < i.bound[1]+slack {
+				continue
+			}
+			for _, n := range names {
+				if dns.IsSubDomain(i.name, n) {
+					past = true
+				}
+			}
+		}
+		if past && tr.Status != l3.Bogus && (tr.Kind == "answer" || tr.Kind == "nodata" || tr.Kind == "nxdomain") {
+			has := false
+			for _, rr := range resp.Answer {
+				if rr.Header().Rrtype == qt {
+					has = true
+				}
+			}
+			switch {
+			case resp.Rcode != tr.Rcode:
+				verdict = fmt.Sprintf("FAIL sig=l3/reply/stale-rcode q=%s/%s got=%s want=%s(%s) — a denial/answer learned through the old delegation outlived its lease",
+					lcn(f[2]), f[3], dns.RcodeToString[resp.Rcode], dns.RcodeToString[tr.Rcode], tr.Kind)
+			case tr.Kind == "answer" && !has && qt != dns.TypeCNAME:
+				verdict = fmt.Sprintf("FAIL sig=l3/reply/stale-nodata q=%s/%s the parent side now has an answer", lcn(f[2]), f[3])
+			}
+		}
+	}
 	tags := "nt,l3"
 	if resp == nil || resp.Rcode == dns.RcodeServerFailure {
 		first := strings.SplitN(lcn(f[2]), ".", 2)[0]
@@ -1067,6 +1142,8 @@ func genL3Case(r *vlib.R, n int, emit func(string)) int {
 	vic := 1 + r.Intn(depth) // which level the parent withdraws / re-points
 	quiet := false           // no queries between the parent's action and the lease end
 	hotNeg := false          // NXDOMAIN / NODATA names are kept hot too
+	aliases := false         // every alias of the victim zone is asked every time
+	forceRepoint := false
 	switch kind {
 	case 0: // a 1–2 s lease against the 5 s cache floor
 		nsT[vic-1] = 1 + r.Intn(2)
@@ -1091,6 +1168,15 @@ func genL3Case(r *vlib.R, n int, emit func(string)) int {
 	case 3: // long-TTL answers kept hot with an aggressive prefetch threshold
 		attl, pf = 86400, 90
 		nsT[vic-1] = vlib.Pick(r, []int{5, 10, 30})
+	case 9: // aliases in a long-lease zone pointing into a short-lease zone that denies barely
+		aliases, forceRepoint = true, true
+		if r.Chance(2, 3) {
+			sec = false
+		}
+		nsT[vic-1], dsT[vic-1] = vlib.Pick(r, []int{5, 10, 30}), vlib.Pick(r, []int{10, 30, 300})
+		if r.Chance(1, 2) {
+			pf, hotNeg = vlib.Pick(r, []int{50, 90}), true
+		}
 	case 8: // hot NXDOMAIN / NODATA names with long SOA minimums, refreshed while the lease is live
 		neg, pf, hotNeg = vlib.Pick(r, []int{300, 3600, 86400}), vlib.Pick(r, []int{50, 90}), true
 		nsT[vic-1], dsT[vic-1] = vlib.Pick(r, []int{5, 10, 30}), vlib.Pick(r, []int{10, 30, 300})
@@ -1151,6 +1237,20 @@ func genL3Case(r *vlib.R, n int, emit func(string)) int {
 			e("l3 q www." + deepest + " A" + fl())
 			e("l3 q nx." + deepest + " A" + fl())
 		}
+		if aliases || r.Chance(1, 2) {
+			// through the long-lived alias zone, and the names only every other incarnation has
+			for _, pfx := range []string{"w", "f", "b", "p"} {
+				if aliases || r.Chance(1, 2) {
+					e(fmt.Sprintf("l3 q %s%d.al. A%s", pfx, vic, fl()))
+				}
+			}
+			e("l3 q flip." + V + " A" + fl())
+			e("l3 q bflip." + V + " A" + fl())
+			if vic < depth && r.Chance(1, 2) {
+				e(fmt.Sprintf("l3 q b%d.al. A%s", depth, fl()))
+				e(fmt.Sprintf("l3 q w%d.al. A%s", depth, fl()))
+			}
+		}
 	}
 	// keep the names hot (prefetch) while the virtual clock advances in small steps
 	hot := func(k int) {
@@ -1164,6 +1264,10 @@ func genL3Case(r *vlib.R, n int, emit func(string)) int {
 				// denials are refreshed in the background like any other hot entry
 				e("l3 q nx." + V + " A" + fl())
 				e("l3 q www." + V + " AAAA" + fl())
+			}
+			if aliases {
+				e(fmt.Sprintf("l3 q b%d.al. A%s", vic, fl()))
+				e(fmt.Sprintf("l3 q f%d.al. A%s", vic, fl()))
 			}
 			if vic < depth && r.Chance(1, 2) {
 				e("l3 q www." + deepest + " A" + fl())
@@ -1196,7 +1300,7 @@ func genL3Case(r *vlib.R, n int, emit func(string)) int {
 		}
 	}
 	// the parent acts
-	if r.Chance(1, 2) {
+	if !forceRepoint && r.Chance(1, 2) {
 		e("l3 withdraw " + V)
 	} else {
 		e(fmt.Sprintf("l3 repoint %s %s %d %d", V, vlib.Pick(r, []string{"same", "new"}), pickTTL(r), pickTTL(r)))
